@@ -6,7 +6,7 @@ use super::Outcome;
 use crate::alphabet;
 use crate::evidence::{hex, unhex, Ctx, EvidenceKeys, Tier};
 use crate::jitter_env;
-use crate::ops::{apply, ops_json, Obs, Op};
+use crate::ops::{apply, ops_json, Op};
 use crate::subject::{Gen, Registry, TimerScript};
 use rayon::prelude::*;
 use serde_json::{json, Value};
@@ -16,8 +16,9 @@ use std::collections::{BTreeMap, BTreeSet};
 pub enum Ctor {
     FromSeed(Vec<u8>),
     FromU64(u64),
-    /// JitterRng::new_with_timer over raw_readings(salt, len); rounds set right after if Some
-    Jitter { salt: u64, len: usize, rounds: Option<u8> },
+    /// JitterRng::new_with_timer over raw_readings(salt, len) (+ `stuck_run` consecutive stuck
+    /// measurements starting at reading 5); rounds set right after if Some
+    Jitter { salt: u64, len: usize, rounds: Option<u8>, stuck_run: usize },
 }
 
 #[derive(Clone, Debug, PartialEq, Eq, PartialOrd, Ord)]
@@ -32,7 +33,7 @@ impl Inst {
         let c = match &self.ctor {
             Ctor::FromSeed(s) => json!({"from_seed": hex(s)}),
             Ctor::FromU64(x) => json!({"seed_from_u64": x}),
-            Ctor::Jitter { salt, len, rounds } => json!({"jitter": {"salt": salt, "len": len, "rounds": rounds}}),
+            Ctor::Jitter { salt, len, rounds, stuck_run } => json!({"jitter": {"salt": salt, "len": len, "rounds": rounds, "stuck_run": stuck_run}}),
         };
         json!({"type": self.ty, "ctor": c, "ops": ops_json(&self.ops)})
     }
@@ -44,7 +45,7 @@ impl Inst {
         } else if let Some(x) = c.get("seed_from_u64").and_then(|x| x.as_u64()) {
             Ctor::FromU64(x)
         } else if let Some(j) = c.get("jitter") {
-            Ctor::Jitter { salt: j.get("salt")?.as_u64()?, len: j.get("len")?.as_u64()? as usize, rounds: j.get("rounds").and_then(|r| r.as_u64()).map(|r| r as u8) }
+            Ctor::Jitter { salt: j.get("salt")?.as_u64()?, len: j.get("len")?.as_u64()? as usize, rounds: j.get("rounds").and_then(|r| r.as_u64()).map(|r| r as u8), stuck_run: j.get("stuck_run").and_then(|r| r.as_u64()).unwrap_or(0) as usize }
         } else {
             return None;
         };
@@ -61,8 +62,10 @@ pub fn construct(reg: &dyn Registry, i: &Inst) -> Box<dyn Gen> {
     match &i.ctor {
         Ctor::FromSeed(s) => reg.get(&i.ty).expect("type").from_seed(s),
         Ctor::FromU64(x) => reg.get(&i.ty).expect("type").seed_from_u64(*x),
-        Ctor::Jitter { salt, len, rounds } => {
-            let mut g = reg.jitter(TimerScript::new(jitter_env::raw_readings(*salt, *len)));
+        Ctor::Jitter { salt, len, rounds, stuck_run } => {
+            let base = jitter_env::raw_readings(*salt, *len);
+            let readings = if *stuck_run > 0 { jitter_env::with_stuck_run(&base, 5, *stuck_run, jitter_env::Dev::Repeat3) } else { base };
+            let mut g = reg.jitter(TimerScript::new(readings));
             if let Some(r) = rounds {
                 g.jitter().unwrap().set_rounds(*r);
             }
@@ -298,7 +301,12 @@ pub fn run(reg: &dyn Registry, ctx: &Ctx) -> Outcome {
         configs.push(vec![Inst { ty: small.into(), ctor: Ctor::FromSeed(vec![0u8; s.info().seed_len]), ops: vec![Op::U64, Op::U64] }, Inst { ty: large.into(), ctor: Ctor::FromSeed(vec![0u8; l.info().seed_len]), ops: vec![Op::U64, Op::U64] }]);
     }
     // JitterRng with scripted timers: two instances; one runs test_timer first
-    let jit = |salt: u64, len: usize, rounds: Option<u8>, ops: Vec<Op>| Inst { ty: "JitterRng".into(), ctor: Ctor::Jitter { salt, len, rounds }, ops };
+    let jit = |salt: u64, len: usize, rounds: Option<u8>, ops: Vec<Op>| Inst { ty: "JitterRng".into(), ctor: Ctor::Jitter { salt, len, rounds, stuck_run: 0 }, ops };
+    let jit_stuck = |salt: u64, len: usize, rounds: Option<u8>, stuck_run: usize, ops: Vec<Op>| Inst { ty: "JitterRng".into(), ctor: Ctor::Jitter { salt, len, rounds, stuck_run }, ops };
+    // one instance sees a long run of stuck measurements, the other an ordinary single one
+    for k in [40usize, 140, 300, 1100] {
+        configs.push(vec![jit_stuck(7, 3 * k + 400, Some(2), k, vec![Op::U64, Op::U32]), jit_stuck(8, 400, Some(2), 1, vec![Op::U64, Op::U64])]);
+    }
     configs.push(vec![jit(1, 200, Some(2), vec![Op::U64, Op::U32]), jit(2, 200, Some(3), vec![Op::U32, Op::Fill(9)])]);
     configs.push(vec![jit(3, 1900, None, vec![Op::TestTimer, Op::TimerStats(true)]), jit(4, 600, None, vec![Op::U64, Op::U32])]);
     configs.push(vec![jit(5, 1900, None, vec![Op::TestTimer, Op::SetRounds(2)]), jit(5, 1900, None, vec![Op::TestTimer, Op::TimerStats(false)])]);
@@ -390,6 +398,116 @@ pub fn run(reg: &dyn Registry, ctx: &Ctx) -> Outcome {
         }
         pool.quit();
     });
+    // ---------------- re-entrant constructions ----------------
+    // A scheduling point *inside* one operation: the source RNG handed to from_rng is user code and may
+    // itself construct and use another generator (before or after delivering the requested bytes).
+    // Both generators must come out exactly as when constructed one after the other.
+    {
+        use crate::subject::{GenType, ScriptSource};
+        struct Reentrant<'a> {
+            bytes: Vec<u8>,
+            pos: usize,
+            partner: &'a dyn GenType,
+            partner_bytes: Vec<u8>,
+            before: bool,
+            partner_obs: Option<Vec<String>>,
+        }
+        impl<'a> Reentrant<'a> {
+            fn nested(&mut self) {
+                if self.partner_obs.is_none() {
+                    let mut src = ScriptSource::new(self.partner_bytes.clone());
+                    let mut b = self.partner.from_rng(&mut src);
+                    self.partner_obs = Some(vec![apply(&mut b, &Op::U64).to_json().to_string(), apply(&mut b, &Op::U32).to_json().to_string(), apply(&mut b, &Op::Fill(9)).to_json().to_string()]);
+                }
+            }
+        }
+        impl<'a> Gen for Reentrant<'a> {
+            fn next_u32(&mut self) -> u32 {
+                let mut b = [0u8; 4];
+                self.fill_bytes(&mut b);
+                u32::from_le_bytes(b)
+            }
+            fn next_u64(&mut self) -> u64 {
+                let mut b = [0u8; 8];
+                self.fill_bytes(&mut b);
+                u64::from_le_bytes(b)
+            }
+            fn fill_bytes(&mut self, dest: &mut [u8]) {
+                if self.before {
+                    self.nested();
+                }
+                for d in dest.iter_mut() {
+                    *d = if self.pos < self.bytes.len() { self.bytes[self.pos] } else { 0xA5 ^ (self.pos as u8) };
+                    self.pos += 1;
+                }
+                if !self.before {
+                    self.nested();
+                }
+            }
+            fn jump(&mut self) {}
+            fn long_jump(&mut self) {}
+            fn clone_box(&self) -> Box<dyn Gen> {
+                unimplemented!()
+            }
+            fn eq_dyn(&self, _: &dyn Gen) -> Option<bool> {
+                None
+            }
+            fn debug(&self, _: bool) -> String {
+                String::new()
+            }
+            fn ser(&self) -> Option<Vec<u8>> {
+                None
+            }
+            fn as_any(&self) -> &dyn std::any::Any {
+                unimplemented!()
+            }
+        }
+        // SAFETY of the Send bound: the value never leaves this thread
+        unsafe impl<'a> Send for Reentrant<'a> {}
+        let src_len = |t: &dyn GenType| match t.info().family {
+            crate::subject::Family::Isaac => 1024,
+            crate::subject::Family::Isaac64 => 2048,
+            _ => t.info().seed_len,
+        };
+        let obs3 = |g: &mut Box<dyn Gen>| vec![apply(g, &Op::U64).to_json().to_string(), apply(g, &Op::U32).to_json().to_string(), apply(g, &Op::Fill(9)).to_json().to_string()];
+        for (i, ty) in types.iter().enumerate() {
+            for partner in [*ty, types[(i + 1) % types.len()]] {
+                for before in [false, true] {
+                    let a_bytes = alphabet::bg_bytes(ctx.seed, 0x19A0 + i as u64, src_len(*ty));
+                    let b_bytes = alphabet::bg_bytes(ctx.seed, 0x19B0 + i as u64, src_len(partner));
+                    // one after the other
+                    let mut sa = ScriptSource::new(a_bytes.clone());
+                    let mut ga = ty.from_rng(&mut sa);
+                    let want_a = obs3(&mut ga);
+                    let mut sb = ScriptSource::new(b_bytes.clone());
+                    let mut gb = partner.from_rng(&mut sb);
+                    let want_b = obs3(&mut gb);
+                    // nested
+                    let mut re = Reentrant { bytes: a_bytes.clone(), pos: 0, partner, partner_bytes: b_bytes.clone(), before, partner_obs: None };
+                    let mut g = ty.from_rng_of(&mut re);
+                    let got_a = obs3(&mut g);
+                    let got_b = re.partner_obs.clone().unwrap_or_default();
+                    ctx.add("reentrant_constructions", 1);
+                    if got_a != want_a || got_b != want_b {
+                        ctx.violation(
+                            &format!("C19:{}+{}:reentrant-from_rng", ty.info().name, partner.info().name),
+                            &format!(
+                                "{}::from_rng whose source constructs a {} {} delivering its bytes: outer generator returns {:?} (alone: {:?}), inner generator {:?} (alone: {:?})",
+                                ty.info().name,
+                                partner.info().name,
+                                if before { "before" } else { "after" },
+                                got_a,
+                                want_a,
+                                got_b,
+                                want_b
+                            ),
+                            json!({"kind":"reentrant","outer":ty.info().name,"inner":partner.info().name,"nested_before_delivery":before,"outer_bytes":hex(&a_bytes[..a_bytes.len().min(64)]),"inner_bytes":hex(&b_bytes[..b_bytes.len().min(64)])}),
+                        );
+                    }
+                }
+            }
+        }
+    }
     ctx.set("schedules", counters.schedules);
     ctx.set("handoffs", counters.handoffs);
     ctx.set("schedules_two_instances_alternating_on_one_thread", counters.alternate_on_one_thread);
